@@ -596,6 +596,43 @@ func TestProp(t *testing.T) {
 		rec.Eval(trivial)
 		rec.Class("TagName", trivial)
 	}
+	// tag names again with the id in the outer loop and the directory types in ascending, then descending order: a lookup must
+	// not depend on which directory type was asked about the same id just before (every id that has a name anywhere, +-1)
+	if shard == 0 {
+		idset := map[int]bool{}
+		for _, m := range gold.TagNames {
+			for h := range m {
+				if v, err := strconv.ParseUint(h, 16, 16); err == nil {
+					for d := -1; d <= 1; d++ {
+						if id := int(v) + d; id >= 0 && id < 65536 {
+							idset[id] = true
+						}
+					}
+				}
+			}
+		}
+		ids := make([]int, 0, len(idset))
+		for id := range idset {
+			ids = append(ids, id)
+		}
+		sort.Ints(ids)
+		types := tagNameIfds(true)
+		bad := 0
+		for _, id := range ids {
+			for pass := 0; pass < 2 && bad < 3; pass++ {
+				for k := range types {
+					it := types[k]
+					if pass == 1 {
+						it = types[len(types)-1-k]
+					}
+					rec.Case(true, ev.HashS("TagName-by-id", strconv.Itoa(it), strconv.Itoa(id), strconv.Itoa(pass)), "TagName:id-outer-order")
+					if report(Case{Enum: "TagName", Value: int64(it)<<16 | int64(id)}, evalTagName(it, id)) {
+						bad++
+					}
+				}
+			}
+		}
+	}
 	// parsers on every pinned text (member names and near-names)
 	if shard == 0 {
 		var ps []string
